@@ -41,7 +41,8 @@ Definition obs_strm (t : st) (s : Z) : val :=
       vbool (b_paused (s_buf x)); vbool (s_inbufs x); vbool (s_live x); vbool (s_tree x);
       (if s_tree x then vbool (s_blocked x) else VZ (-1));
       (if s_inbufs x && s_h2open x then VZ (s_win x) else VS "closed");
-      vbool (app_runnable x); vbool (match s_pc x with PDone => true | _ => false end)].
+      vbool (app_runnable x); vbool (match s_pc x with PDone => true | _ => false end);
+      (if s_inbufs x then vbool (s_abort x) else VZ (-1))].
 
 Definition obs_state (t : st) : val :=
   VL [VL (map (obs_strm t) (rev (ids t))); vbool (has_data t); vbool (closed t); VZ (cwin t);
